@@ -32,6 +32,15 @@ class StopSentinel:  # pylint: disable=too-few-public-methods
     """
 
 
+class WorkerFailure:  # pylint: disable=too-few-public-methods
+    """The mapped function raised an exception in a worker thread. Forwarded
+    through the results queue so that the consumer can re-raise it.
+    """
+
+    def __init__(self, exception: BaseException) -> None:
+        self.exception: BaseException = exception
+
+
 class LazyPool:
     """Lazy version of `concurrent.futures.ThreadPoolExecutor.map`. Allows to
     iterate content of shards without reading all of them into memory if they
@@ -113,7 +122,7 @@ class LazyPool:
         assert self._to_process is None
         assert self._results is None
         self._to_process = queue.Queue[U | StopSentinel]()
-        self._results = queue.Queue[V | StopSentinel]()
+        self._results = queue.Queue[V | StopSentinel | WorkerFailure]()
 
         iterator_with_stops: Iterable[U | StopSentinel] = itertools.chain(
             iterable, itertools.cycle([StopSentinel()]))
@@ -144,10 +153,14 @@ class LazyPool:
 
         # Get and yield one and put another to be processed.
         while self._active_threads > 0:
-            next_result: V | StopSentinel = self._results.get()
+            next_result: V | StopSentinel | WorkerFailure = self._results.get()
             if isinstance(next_result, StopSentinel):
                 self._active_threads -= 1
                 continue
+            if isinstance(next_result, WorkerFailure):
+                # Stop the workers and let the consumer know.
+                self.finish_and_reset()
+                raise next_result.exception
 
             # New element to be processed. After the potentially finite
             # `iterator` we append an infinite number of `StopSentinel`s so the
@@ -170,7 +183,8 @@ class Collector(threading.Thread):
 
     def __init__(self, func: Callable[[U], V],
                  to_process: queue.Queue[U | StopSentinel],
-                 results: queue.Queue[V | StopSentinel], *args: Any,
+                 results: queue.Queue[V | StopSentinel | WorkerFailure],
+                 *args: Any,
                  **kwargs: Any) -> None:
         """Take take elements to process from `to_process` queue and put the
         results into `results` (both queues are shared with other threads).
@@ -184,7 +198,8 @@ class Collector(threading.Thread):
 
           to_process (queue.Queue[U | StopSentinel]): Incoming items.
 
-          results (queue.Queue[V | StopSentinel]): Return back the results.
+          results (queue.Queue[V | StopSentinel | WorkerFailure]): Return
+          back the results or the exception raised by `func`.
 
           *args, **kwargs: Passed to `Thread` constructor.
         """
@@ -192,7 +207,7 @@ class Collector(threading.Thread):
 
         # Main communication queues from LazyPool.
         self._to_process: queue.Queue[U | StopSentinel] = to_process
-        self._results: queue.Queue[V | StopSentinel] = results
+        self._results: queue.Queue[V | StopSentinel | WorkerFailure] = results
         self.func: Callable[[U], V] = func
 
     def run(self) -> None:
@@ -215,5 +230,11 @@ class Collector(threading.Thread):
                 return
 
             # Can be blocking, but should be short.
-            self._results.put(self.func(element))
+            try:
+                result: V | WorkerFailure = self.func(element)
+            except BaseException as exc:  # pylint: disable=broad-exception-caught
+                # Without forwarding the consumer would wait forever for the
+                # result of this element.
+                result = WorkerFailure(exc)
+            self._results.put(result)
             time.sleep(0.0)  # Give up GIL.
